@@ -13,6 +13,7 @@ import Driver.UnitOps
 import Driver.RenderOps
 import Driver.SvgOps
 import Driver.WasmOps
+import Driver.HistOps
 import FastQr.Model.Version
 import FastQr.Model.Classify
 import FastQr.Spec.Capacity
@@ -77,6 +78,8 @@ def handle (prop : String) (line : String) : String :=
       | "term" => opTerm args res
       | "svg" => opSvg prop args res
       | "wasm" => opWasm args res
+      | "hist" => opHist args res
+      | "threads" => opThreads args res
       | "wasmqr" => opWasmQr args res
       | _ => { spec := some s!"unknown-op:{op}" }
     v.render
